@@ -183,15 +183,17 @@ def _impl_real(case):
     site_frac = [[0.0, 0.0, 0.0], [0.5, 0.0, 0.0], [0.0, 0.5, 0.0], [0.5, 0.5, 0.0]]
     sites = synth.make_sites(m, site_frac, labels=['A', 'B', 'A', 'B'])
 
-    def build():
-        traj = synth.make_traj(m, ['Li'] * 3, synth.hopping_positions(r, 50, 3, site_frac, 0.2))
+    def build(nli=3):
+        traj = synth.make_traj(m, ['Li'] * nli, synth.hopping_positions(r, 50, nli, site_frac, 0.2, 0.01 if nli == 3 else 0.07))       # wide scatter: frames on no site
         tr = traj.transitions_between_sites(sites, 'Li', site_radius=1.0)
         return traj, tr
 
     problems, checked, pinned = [], 0, []
     objs = []
-    for _ in range(3):
-        traj, tr = build()
+    # one object has a single diffusing atom: its state table is one column wide, so its transpose is already contiguous in memory and
+    # helpers that copy "only when needed" hand the object's own table on
+    for nli in (3, 1, 2):
+        traj, tr = build(nli)
         try:
             j = Jumps(tr)
         except ValueError:
@@ -216,6 +218,7 @@ def _impl_real(case):
     r.shuffle(order)
     import copy
     first = {}
+    own = [(tr.states.copy(), tr.inner_states.copy(), tr.events.copy(deep=True)) for (_t, tr, _j, _m) in objs]
 
     def call(f):
         try:
@@ -238,6 +241,10 @@ def _impl_real(case):
                 first[idx] = (got[1], copy.deepcopy(got[1]))
         del got, want
     del first
+    for n, ((st0, in0, ev0), (_t, tr, _j, _m)) in enumerate(zip(own, objs)):
+        checked += 1
+        if not (np.array_equal(st0, tr.states) and np.array_equal(in0, tr.inner_states) and ev0.equals(tr.events)):
+            problems.append(f'the states / events of object {n} ({tr.states.shape[1]} diffusing atom(s)) were modified by its memoised methods')
     # objects derived from one parent (selections, slices) may share sub-objects with it (pymatgen hands the metadata dict on by reference):
     # what is computed for one must not show up in the results of another -- compare each with an independently built equal trajectory
     import copy as _copy
